@@ -34,6 +34,7 @@ type FuncSpec struct {
 	Ensures   []*Clause
 	Modifies  []*Clause
 	ModAll    bool
+	ModHeap   bool // every non-ghost storage may change; ghost state only as listed
 	HasMod    bool
 	Loops     map[int]*LoopSpec
 	Assumes   []*Clause
@@ -56,6 +57,7 @@ type FuncSpec struct {
 	Method    string
 	Transparent bool
 	GhostSets []*GhostSet
+	Spawns    []string // parameters holding functions that run later: their precondition is checked at the call
 }
 
 // GhostSet is a ghost assignment executed at every return of the function
@@ -164,7 +166,7 @@ var subKeywords = map[string]bool{
 	"requires": true, "ensures": true, "modifies": true, "loop": true, "protects": true,
 	"invariant": true, "assume": true, "inline": true, "maypanic": true, "nosafety": true,
 	"params": true, "results": true, "let": true, "letold": true, "forall": true, "note": true, "property": true,
-	"selfcomp": true, "held": true, "transparent": true, "ghostset": true,
+	"selfcomp": true, "held": true, "transparent": true, "ghostset": true, "spawns": true,
 }
 
 type rawDirective struct {
@@ -559,6 +561,10 @@ func parseFuncSub(fs *FuncSpec, d rawDirective, path string) error {
 				fs.ModAll = true
 				continue
 			}
+			if p == "heap" {
+				fs.ModHeap = true
+				continue
+			}
 			if p == "" || p == "nothing" {
 				continue
 			}
@@ -631,6 +637,10 @@ func parseFuncSub(fs *FuncSpec, d rawDirective, path string) error {
 		}
 	case "held":
 		fs.LockHeld = append(fs.LockHeld, strings.TrimSpace(d.text))
+	case "spawns":
+		for _, p := range strings.Split(d.text, ",") {
+			fs.Spawns = append(fs.Spawns, strings.TrimSpace(p))
+		}
 	case "ghostset":
 		j := strings.Index(d.text, "=")
 		if j < 0 {
